@@ -115,6 +115,10 @@ Section Reindex.
              (strict : option bool) (fills : list (string * pyval)) (fresh : Z) : outcome cst :=
     reindex_M st new_span new_span_id fill_value strict (with_model_defaults fills) fresh.
 
+  (* BaseLinker.reindex (fsic/core/linkers.py 187-194): documented as not implemented — whatever the arguments *)
+  Definition linker_reindex_M (st : cst) (new_span : span) (new_span_id : Z) (fill_value : pyval)
+             (strict : option bool) (fills : list (string * pyval)) (fresh : Z) : outcome cst := Raise NotImplementedError.
+
   (* ---- PandasIndexFeaturesMixin.reindex ---- *)
   (* Series(self[name], index=self.span).reindex(index=span, method=m, fill_value=v).values
      (arguments: old span, dtype and data of self[name], new span, method, fill value) *)
